@@ -186,7 +186,7 @@ class LayoutEval:
                 return ("class", r.mod, r.node)
             if r.kind == "func":
                 return ("func", r.func)
-            if node.id in ("max", "min", "len", "int"):
+            if node.id in ("max", "min", "len", "int", "range", "zip", "enumerate", "list", "tuple", "dict", "str", "sorted", "reversed", "sum"):
                 return ("builtin", node.id)
             raise AnalysisError(f"cannot resolve name {node.id!r} in {mod.name}")
         if isinstance(node, ast.Attribute):
@@ -197,6 +197,8 @@ class LayoutEval:
                 return ("sizeof", v)
             if isinstance(v, dict) and node.attr == "get":
                 return ("dictget", v)
+            if isinstance(v, dict) and node.attr in ("items", "keys", "values"):
+                return ("dictmethod", v, node.attr)
             if isinstance(v, SelfObj):
                 if node.attr in v.attrs:
                     return v.attrs[node.attr]
@@ -269,14 +271,95 @@ class LayoutEval:
                 return l == r
             if isinstance(op, ast.NotEq):
                 return l != r
+            if isinstance(op, (ast.In, ast.NotIn)) and isinstance(r, (dict, list, tuple, str)):
+                try:
+                    res = l in r
+                except TypeError:
+                    raise AnalysisError(f"unmodelled comparison {norm(node)}")
+                return res if isinstance(op, ast.In) else not res
+            if isinstance(op, (ast.Lt, ast.LtE, ast.Gt, ast.GtE)) and isinstance(l, (int, float)) and isinstance(r, (int, float)):
+                return {ast.Lt: l < r, ast.LtE: l <= r, ast.Gt: l > r, ast.GtE: l >= r}[type(op)]
             raise AnalysisError(f"unmodelled comparison {norm(node)}")
         if isinstance(node, ast.JoinedStr):
-            return "<fstring>"
+            parts = []
+            for v in node.values:
+                if isinstance(v, ast.Constant):
+                    parts.append(str(v.value))
+                    continue
+                try:
+                    x = self.ev(v.value, mod, local)
+                except AnalysisError:
+                    return "<fstring>"
+                if not isinstance(x, (str, int)) or isinstance(x, bool) or v.conversion != -1:
+                    return "<fstring>"
+                if v.format_spec is not None:
+                    spec = self.ev(v.format_spec, mod, local)
+                    if not isinstance(spec, str) or "<fstring>" in spec:
+                        return "<fstring>"
+                    parts.append(format(x, spec))
+                else:
+                    parts.append(str(x))
+            return "".join(parts)
+        if isinstance(node, (ast.ListComp, ast.GeneratorExp, ast.SetComp, ast.DictComp)):
+            return self.comprehension(node, mod, local)
+        if isinstance(node, ast.Starred):
+            raise AnalysisError(f"unmodelled layout expression: {norm(node)[:120]} ({mod.name})")
+        if isinstance(node, ast.IfExp):
+            test = self.ev(node.test, mod, local)
+            if not isinstance(test, bool):
+                raise AnalysisError(f"layout expression: undecidable condition {norm(node.test)}")
+            return self.ev(node.body if test else node.orelse, mod, local)
         if isinstance(node, ast.Call):
             return self.call(node, mod, local)
         if isinstance(node, ast.Lambda):
             return Closure(node, dict(local), mod)
         raise AnalysisError(f"unmodelled layout expression: {norm(node)[:120]} ({mod.name})")
+
+    def comprehension(self, node, mod, local):
+        """comprehensions over literal collections used to generate fields (constant folding)"""
+        results = []
+
+        def bind(target, value, env):
+            if isinstance(target, ast.Name):
+                env[target.id] = value
+            elif isinstance(target, (ast.Tuple, ast.List)):
+                vals = list(value) if isinstance(value, (list, tuple)) else None
+                if vals is None or len(vals) != len(target.elts):
+                    raise AnalysisError(f"layout comprehension: cannot unpack {value!r} into {norm(target)}")
+                for t, v in zip(target.elts, vals):
+                    bind(t, v, env)
+            else:
+                raise AnalysisError(f"layout comprehension: unsupported target {norm(target)}")
+
+        def rec(i, env):
+            if i == len(node.generators):
+                if isinstance(node, ast.DictComp):
+                    results.append((self.ev(node.key, mod, env), self.ev(node.value, mod, env)))
+                else:
+                    results.append(self.ev(node.elt, mod, env))
+                return
+            g = node.generators[i]
+            it = self.ev(g.iter, mod, env)
+            if isinstance(it, dict):
+                it = list(it)
+            if not isinstance(it, (list, tuple, range, str)):
+                raise AnalysisError(f"layout comprehension over a non-literal collection: {norm(g.iter)[:80]} ({mod.name})")
+            for x in it:
+                env2 = dict(env)
+                bind(g.target, x, env2)
+                ok = True
+                for cond in g.ifs:
+                    c = self.ev(cond, mod, env2)
+                    if not isinstance(c, bool):
+                        raise AnalysisError(f"layout comprehension: undecidable filter {norm(cond)}")
+                    ok = ok and c
+                if ok:
+                    rec(i + 1, env2)
+
+        rec(0, dict(local))
+        if isinstance(node, ast.DictComp):
+            return dict(results)
+        return results
 
     def external(self, fq):
         if fq.startswith("construct."):
@@ -318,7 +401,17 @@ class LayoutEval:
 
     def call(self, node, mod, local):
         f = self.ev(node.func, mod, local) if not self._is_super_init(node) else ("super_init",)
-        args = [self.ev(a, mod, local) for a in node.args]
+        args = []
+        for a in node.args:
+            if isinstance(a, ast.Starred):
+                v = self.ev(a.value, mod, local)
+                if isinstance(v, dict):
+                    v = list(v)
+                if not isinstance(v, (list, tuple)):
+                    raise AnalysisError(f"*{norm(a.value)[:60]} is not a literal sequence in a layout expression ({mod.name})")
+                args.extend(v)
+            else:
+                args.append(self.ev(a, mod, local))
         kwargs = {}
         for k in node.keywords:
             if k.arg is None:
@@ -343,6 +436,21 @@ class LayoutEval:
                 if all(isinstance(x, (int, float)) and not isinstance(x, bool) for x in vals):
                     return {"max": max, "min": min}[f[1]](vals)
                 return Poly.func(f[1], [self.num(x) for x in vals])
+            if f[0] == "builtin" and f[1] in ("range", "zip", "enumerate", "list", "tuple", "dict", "str", "sorted", "reversed", "len", "int", "sum"):
+                plain = lambda x: isinstance(x, (int, str, list, tuple, dict, range)) and not isinstance(x, bool)
+                if all(plain(x) for x in args) and all(plain(x) for x in kwargs.values()):
+                    try:
+                        out = {"range": range, "zip": zip, "enumerate": enumerate, "list": list, "tuple": tuple, "dict": dict, "str": str, "sorted": sorted,
+                               "reversed": reversed, "len": len, "int": int, "sum": sum}[f[1]](*args, **kwargs)
+                    except Exception as e:
+                        raise AnalysisError(f"layout expression {norm(node)[:80]} does not evaluate: {e}")
+                    if f[1] in ("range", "zip", "enumerate", "reversed", "sorted", "tuple"):
+                        out = [list(x) if isinstance(x, tuple) else x for x in out]
+                    return out
+                raise AnalysisError(f"unmodelled call in layout: {norm(node)[:120]} ({mod.name})")
+            if f[0] == "dictmethod":
+                d, m = f[1], f[2]
+                return {"items": lambda: [[k, v] for k, v in d.items()], "keys": lambda: list(d), "values": lambda: list(d.values())}[m]()
             if f[0] == "func":
                 return self.call_function(f[1], args, kwargs)
             if f[0] == "ctor":
